@@ -147,7 +147,7 @@ def c06(tier, seed):
 
 # ------------------------------------------------------------------------------------------ overlay
 
-def ovl_cases(universe, nlayers, props_, seed, ncfg=None, k1_ops=None, k2=0, k3=0, removal_first=False, max_nodes=None, layer_kind='mem', k2_first=None, recreate=0, then_parent=False):
+def ovl_cases(universe, nlayers, props_, seed, ncfg=None, k1_ops=None, k2=0, k3=0, removal_first=False, max_nodes=None, layer_kind='mem', k2_first=None, recreate=0, then_parent=False, tag='C09'):
     """cases for overlay.run_history_case: per layer configuration a list of histories"""
     from . import overlay
     u = UNIVERSES[universe]()
@@ -202,7 +202,7 @@ def ovl_cases(universe, nlayers, props_, seed, ncfg=None, k1_ops=None, k2=0, k3=
                 for v1 in present:
                     o2, v2 = rng.choice(overlay.HIST_OPS + overlay.TIME_OPS), rng.choice([v1] + real)
                     hs.append([(o1, v1), (o2, v2)])
-        cases.append({'universe': universe, 'nlayers': nlayers, 'cfg': cfg, 'histories': hs, 'props': props_, 'layer_kind': layer_kind})
+        cases.append({'universe': universe, 'nlayers': nlayers, 'cfg': cfg, 'histories': hs, 'props': props_, 'layer_kind': layer_kind, 'tag': tag})
     return cases
 
 
@@ -300,7 +300,7 @@ def reader_cases(tier, prop_, release=False):
     return cases
 
 
-def writer_cases(tier, prop_, phys=False):
+def writer_cases(tier, prop_, phys=False, phys_create_only=False):
     cases = []
     cfgs = ['mem', 'alt', 'ovl_lower', 'ovl_upper'] + (['phys'] if phys else [])
     k = 2 if tier == 'quick' else 3
@@ -308,12 +308,17 @@ def writer_cases(tier, prop_, phys=False):
         seqs = [('create',), ('append',), ('create', 'append'), ('append', 'append')]
         if tier != 'quick':
             seqs += [('append', 'create'), ('create', 'create'), ('create', 'append', 'append')]
+        if cfg == 'phys' and phys_create_only:
+            # an O_APPEND file reports offset 0 until its first write and ignores seeks for writing: the cursor contract
+            # of C14 is about the library's own handles; create handles of PhysicalFS are plain files and do follow it
+            seqs = [('create',), ('create', 'create')]
         for modes in seqs:
             kk = (k + 1 if tier == 'quick' else k) if (cfg == 'mem' and len(modes) == 1) else max(1, k - 1)
             if len(modes) == 3:
                 kk = 1
             cases.append({'cfg': cfg, 'k': kk, 'sessions': len(modes), 'modes': modes, 'prop': prop_, 'pre': 2})
-        cases.append({'cfg': cfg, 'k': 1, 'sessions': 1, 'modes': ('append',), 'prop': prop_, 'pre': None})
+        if not (cfg == 'phys' and phys_create_only):
+            cases.append({'cfg': cfg, 'k': 1, 'sessions': 1, 'modes': ('append',), 'prop': prop_, 'pre': None})
         cases.append({'cfg': cfg, 'k': k, 'sessions': 1, 'modes': ('create',), 'prop': prop_, 'pre': None})
     return cases
 
@@ -332,7 +337,7 @@ def c14(tier, seed):
     prog = load_program()
     ck.selftest = quick_selftest(prog, seed, 12 if tier == 'quick' else 150, kinds=['mem', 'alt', 'ovl'])
     ck.add(run_cases(prog, handles.run_reader_case, reader_cases(tier, 'C14')), 'reader scripts vs reference cursor (symbolic 64-bit offsets)')
-    ck.add(run_cases(prog, handles.run_writer_case, writer_cases(tier, 'C14')), 'writer sessions vs reference growable cursor')
+    ck.add(run_cases(prog, handles.run_writer_case, writer_cases(tier, 'C14', phys=True, phys_create_only=True)), 'writer sessions vs reference growable cursor (MemoryFS, adapters; create handles of PhysicalFS@OSM)')
     ck.bounds = {'content': '0..%d symbolic bytes' % (3 if tier == 'quick' else 4), 'reader_script_steps': 3 if tier == 'quick' else 4,
                  'offsets': 'any 64-bit value (solver variable)', 'read_buffer_sizes': [0, 1, 3], 'writer_script_steps': 2 if tier == 'quick' else 3}
     ck.assumptions = HANDLE_ASSUMPTIONS
@@ -402,6 +407,9 @@ def c11(tier, seed):
     ck.add(run_cases(prog, transfer.run_transfer_case, scases), 'same with symbolic child names (solver decides how names of nested entries relate to their directory name)')
     comp = step_cases(['mem', 'alt:/a'] if tier == 'quick' else ['mem', 'alt:/a', 'altalt'], 'U5', onestep.COMPOSITES, ['C11'], tier, seed, tag='C11')
     ck.add(run_cases(prog, onestep.run_step_case, comp), 'create_dir_all / remove_dir_all from every well-formed tree on every path')
+    from . import overlay
+    oc = ovl_cases('UO4', 2, ['C11'], seed, ncfg=60 if tier == 'quick' else None, k1_ops=['remove_dir_all', 'create_dir_all'], tag='C11')
+    ck.add(run_cases(prog, overlay.run_history_case, oc), 'create_dir_all / remove_dir_all through an overlay over nested lower-layer trees')
     ck.bounds = {'universe': 'UT: source {a, a/b, a/b/c, f}, destination {x, x/b, x/b/c}', 'instance_pairs': pairs, 'file_bytes': '0..3 symbolic',
                  'io_copy_model_buffer': list(bufs), 'excluded': 'destination inside the source subtree (documented non-termination), wrong-type sources (unspecified)'}
     ck.assumptions = COMMON_ASSUMPTIONS + ['io::copy is a loop over the real reader/writer with a small model buffer (the 8 KiB constant of std is outside the claim)']
@@ -529,9 +537,10 @@ def c16(tier, seed):
     for sh in shs:
         for pr in pairs:
             cases.append({'cfg': 'mem', 'universe': 'U3', 'shape': sh, 'programs': pr, 'mode': 'linearizable'})
-    rng.shuffle(cases)
     if tier == 'quick':
-        cases = cases[:420]
+        rep = [(), (('a', 'd'),), (('a', 'd'), ('a_b', 'd')), (('a', 'd'), ('a_b', 'f')), (('a', 'f'),), (('a', 'd'), ('ab', 'f'), ('a_b', 'f'))]
+        cases = [c for c in cases if c['shape'] in rep]
+    rng.shuffle(cases)
     extra = []
     if tier != 'quick':
         # 2 threads x 2 calls and 3 threads x 1 call, sampled
@@ -549,7 +558,7 @@ def c16(tier, seed):
     if extra:
         ck.add(run_cases(prog, threads.run_concurrent_case, extra), '2x2, 3x1 calls and adapters over MemoryFS (sampled programs, every interleaving)')
     ck.bounds = {'threads': '2 (quick); 2x2 and 3x1 sampled (thorough)', 'universe': 'U3 = {/a,/ab,/a/b}', 'interleaving_granularity': 'lock acquisition',
-                 'programs_quick': '420 seeded (state, call pair) cases of %d' % (len(shs) * len(pairs))}
+                 'programs_quick': 'all %d related call pairs from 6 representative trees (thorough: all %d trees)' % (len(pairs), len(shs))}
     ck.assumptions = THREAD_ASSUMPTIONS
     ck.rule = 'a state = (initial tree, thread programs); a transition = one complete interleaving (schedule) explored on the real MIR; all schedules of each program are enumerated'
     return ck.finish(prog)
